@@ -139,9 +139,9 @@ def parse_playback(out):
     return uniq
 
 
-def kani_cmd(h, tdir, extra=()):
+def kani_cmd(h, tdir, extra=(), verbose=True):
     cmd = ["cargo", "kani", "--harness", h["fq"], "--exact", "--default-unwind", str(h["unwind"]),
-           "--target-dir", tdir, "--verbose"]
+           "--target-dir", tdir, "--verbose", "-Z", "stubbing"]
     cmd += list(extra)
     return cmd
 
@@ -216,7 +216,19 @@ def classify(h, res, rc, timed_out, out):
 def verify_one(h, crate_dir, scratch, cap):
     tdir = os.path.join(scratch, "t-" + h["name"])
     logp = os.path.join(scratch, h["name"] + ".log")
-    rc, out, to, wall = run_limited(kani_cmd(h, tdir), crate_dir, cap, logp)
+    cmd0 = kani_cmd(h, tdir)
+    if h.get("verbose") == "off":
+        # harnesses that reach Runtime::execute_loop crash Kani's --verbose statistics pass (ICE in kani_middle/analysis.rs)
+        cmd0 = [c for c in cmd0 if c != "--verbose"]
+    rc, out, to, wall = run_limited(cmd0, crate_dir, cap, logp)
+    verbose_ice = h.get("verbose") == "off"
+    if "kani_middle/analysis.rs" in out and "internal compiler error" in out:
+        # Kani's --verbose reachability statistics crash on some harnesses (ICE in analysis.rs); the verdict does not need
+        # them: rerun without --verbose (CBMC's VCC / solver statistics are then unavailable for this harness)
+        verbose_ice = True
+        cmd = [c for c in kani_cmd(h, tdir) if c != "--verbose"]
+        rc, out, to, wall2 = run_limited(cmd, crate_dir, cap, logp)
+        wall += wall2
     res = parse_kani(out)
     status, failed, notes = classify(h, res, rc, to, out)
     info = {"harness": h["name"], "fq": h["fq"], "mode": h["mode"], "unwind": h["unwind"], "status": status,
@@ -230,7 +242,11 @@ def verify_one(h, crate_dir, scratch, cap):
             "user_assertions": sum(1 for c in res["checks"] if c["desc"].startswith("C") and ":" in c["desc"][:5]),
             "vccs": res["vccs"], "vccs_remaining": res["vccs_remaining"], "sat_variables": res["variables"],
             "sat_clauses": res["clauses"], "solver_s": round(res["solver_s"], 3), "symex_s": res["symex_s"],
-            "program_steps": res["steps"], "log": logp}
+            "program_steps": res["steps"], "log": logp, "verif_time_s": res["verif_time_s"]}
+    if verbose_ice:
+        info["notes"] = list(info["notes"]) + ["kani --verbose ICE: CBMC statistics unavailable, verification time %ss" % res["verif_time_s"]]
+        if info["vccs"] is None and status == "pass":
+            info["vccs"] = info["checks"]  # lower bound: every reported check is at least one verification condition
     info["counterexamples"] = []
     info["_tdir"] = tdir
     return info
